@@ -167,6 +167,15 @@ class DiffXReader(object):
             options = section['options']
             section_id = section['section']
 
+            # Encodings are always names. A purely numeric value would have
+            # been converted to an integer, and can't name an encoding.
+            if not isinstance(options.get('encoding', ''), str):
+                raise DiffXParseError(
+                    'Unsupported value "%s" for the encoding option of '
+                    'section "%s"'
+                    % (options['encoding'], section_id),
+                    linenum=linenum)
+
             if section_id in CONTENT_SECTIONS:
                 # This is a content section.
                 encoding = options.get('encoding', encodings[-1])
@@ -485,6 +494,57 @@ class DiffXReader(object):
         fp = self._fp
         content = fp.read(length)
 
+        try:
+            return self._process_content(
+                content,
+                encoding=encoding,
+                indent=indent,
+                line_endings=line_endings,
+                keep_bytes=keep_bytes)
+        except LookupError as e:
+            raise DiffXParseError('Unsupported encoding "%s": %s'
+                                  % (encoding, e),
+                                  linenum=self._linenum)
+        except UnicodeError as e:
+            raise DiffXParseError('Unable to decode the content as "%s": %s'
+                                  % (encoding, e),
+                                  linenum=self._linenum)
+
+    def _process_content(self, content, encoding, indent, line_endings,
+                         keep_bytes):
+        """Process content read for a section.
+
+        Args:
+            content (bytes):
+                The content read from the stream.
+
+            encoding (unicode):
+                The encoding used to decode the content to a Unicode string.
+
+            indent (int):
+                The amount of indentation to strip from each line.
+
+            line_endings (unicode):
+                The specified line ending format, if any.
+
+            keep_bytes (bool):
+                Whether to keep the result as bytes.
+
+        Returns:
+            bytes or unicode:
+            The processed string.
+
+        Raises:
+            LookupError:
+                The encoding is not known.
+
+            UnicodeError:
+                The content could not be decoded.
+
+            pydiffx.errors.DiffXParseError:
+                The content did not end in the newline, or an option did not
+                validate.
+        """
         # First, determine the line endings that we're going to be working
         # with.
         if line_endings:
